@@ -22,7 +22,7 @@ RULE = (
     "graph, equal or different inputs, each with its own max_concurrency), map; interleaving of concurrent runs by seeded delays, hold-open release and "
     "ready-shuffle. Reference = the same operation executed alone on freshly compiled objects. Non-trivial = >=2 runs overlapped in simulated time or a "
     "mutating function ran in >=2 runs; distinct = digest of (program shape, history, interleaving)."
-    ' Also: defaults that are dicts holding a mutable value, part of the inputs passed as keyword arguments, structurally identical graphs with different entry-point configuration on shared runners, a mapping node whose inner graph binds an object (clone True/False/list; wrapper input renamed or not); cache-enabled runners (shared or per-runner InMemoryCache) with cacheable mutating-default nodes; two sibling nested graphs binding one parameter name to different objects (with / without an overriding binding on the enclosing graph); a run of a concurrent batch cancelled by a caller-side timeout (asyncio.wait_for on the virtual clock).'
+    ' Also: defaults that are dicts holding a mutable value, part of the inputs passed as keyword arguments, structurally identical graphs with different entry-point configuration on shared runners, a mapping node whose inner graph binds an object (clone True/False/list; wrapper input renamed or not); cache-enabled runners (shared or per-runner InMemoryCache) with cacheable mutating-default nodes; two sibling nested graphs binding one parameter name to different objects (with / without an overriding binding on the enclosing graph); an auto-resolving two-output interrupt with a signal whose handler returns one shared dict object on every call; a run of a concurrent batch cancelled by a caller-side timeout (asyncio.wait_for on the virtual clock).'
 )
 ASSUMPTIONS = ["node functions mutate only their default-valued arguments; bound and provided objects are only read"]
 
@@ -61,7 +61,9 @@ def gen_case(rng: random.Random, tier: str) -> dict:
     ops = []
     for _ in range(rng.randint(3, 8)):
         r = rng.random()
-        if r < 0.05:
+        if r < 0.03:
+            ops.append({"op": "sharedresp", "runner": rng.randrange(3), "x": rng.randint(0, 2), "cfg": gen.gen_async_cfg(rng)})
+        elif r < 0.06:
             ops.append({"op": "siblings", "sync": rng.random() < 0.5, "runner": rng.randrange(2), "x": rng.randint(0, 2), "cfg": gen.gen_async_cfg(rng), "outer_bind": rng.random() < 0.3})
         elif r < 0.12:
             ops.append({"op": "mapnode", "mo": rng.choice(["x", "xy"]), "renamed": rng.random() < 0.5, "clone": rng.choice([True, False, ["y"]]), "xs": [rng.randint(0, 3) for _ in range(rng.randint(1, 3))], "sync": rng.random() < 0.5, "runner": rng.randrange(2), "cfg": gen.gen_async_cfg(rng)})
@@ -151,6 +153,12 @@ class _Pool:
                 graph, comp = build(spec, rt, flav, bind={"cfgs": outer_obj} if ob else None)
                 self.comps.append(comp)
                 self.siblings[(flav, ob)] = (graph, comp.nodes["SA"].graph.inputs.bound["cfgs"], comp.nodes["SB"].graph.inputs.bound["cfgs"], outer_obj)
+        # an auto-resolving interrupt with two outputs and a signal, whose handler returns ONE shared dict object on every call
+        spec = {"name": "sr", "nodes": [
+            {"kind": "interrupt", "name": "srq", "params": [{"name": "x"}], "outs": ["sra", "srb"], "emit": ["srs"], "script": [], "async_handler": True, "shared_resp": True},
+            {"kind": "fn", "name": "srw", "params": [{"name": "sra"}], "outs": ["srw_o"], "wait_for": ["srs"]}], "order": [0, 1]}
+        self.sharedresp, comp = build(spec, rt, "async")
+        self.comps.append(comp)
         from hypergraph import InMemoryCache
 
         mode = doc.get("cache")
@@ -266,6 +274,19 @@ def run_case(doc: dict) -> dict:
                 res["steps"] += (out.get("sim") or {}).get("steps") or 0
                 _compare(tag, _summ(out), ref(op["g"], op["x"], "async", ep=ep), viol)
                 _caller_dict(tag, inp, keep, viol)
+            elif op["op"] == "sharedresp":
+                rt.schedule = op["cfg"]["schedule"]
+                rt.decisions = []
+                inp = {"x": op["x"]}
+                out = call_async(rt, [lambda: pool.async_runners[op["runner"]].run(pool.sharedresp, inp)], shuffle_seed=op["cfg"].get("shuffle"), call_ids=[f"op{oi}"])[0]
+                res["runs"] += 1
+                res["stats"]["shared_handler_dict_ops"] = res["stats"].get("shared_handler_dict_ops", 0) + 1
+                if out["status"] != "completed":
+                    viol.append((f"{tag}:run_with_shared_handler_answer_not_completed", {"status": out["status"], "error": out["error"]}))
+                for (nname, _c), obj in (rt.__dict__.get("shared_responses") or {}).items():
+                    if sorted(obj) != ["sra", "srb"]:
+                        viol.append((f"{tag}:handler_owned_dict_modified", {"node": nname, "keys_now": sorted(map(str, obj))}))
+                        break
             elif op["op"] == "siblings":
                 flav = "sync" if op["sync"] else "async"
                 ob = bool(op.get("outer_bind"))
